@@ -132,8 +132,20 @@ class T(object):
 
 
 class Rt(object):
-    def __init__(self, name, version=1):
-        self.name, self.version = name, version
+    def __init__(self, name, version=1, attrs=()):
+        self.name, self.version, self.attrs = name, version, tuple(attrs)
+
+
+def route_method(r):
+    """Method name of a route in the client output, for plain lower_case route names only (None otherwise)."""
+    if not re.match(r'^[a-z][a-z0-9]*(_[a-z0-9]+)*$', r.name):
+        return None
+    parts = r.name.split('_')
+    return parts[0] + ''.join(x.capitalize() for x in parts[1:]) + ('V%d' % r.version if r.version != 1 else '')
+
+
+def route_auth(r):
+    return dict(getattr(r, 'attrs', ()) or ()).get('auth', 'user')
 
 
 class Mem(object):
@@ -254,6 +266,12 @@ def check_model(inv, specs, trace, oc, out_v, label=None):
                     if fn.endswith('.swift'):
                         c2, _e = lex(data.decode('utf-8', 'replace'), 'swift')
                         tcode[fn] = c2 or ''
+                for rnsn, r in routes:
+                    mname = route_method(r)
+                    if mname is not None:
+                        cnt = len(re.findall(r'\bfunc\s+%s\b' % re.escape(mname), codes.get(pascal(rnsn) + 'Routes.swift', '')))
+                        if cnt == 0:
+                            out_v.append(viol('swift-client-route-missing', 'swift_client declares no function for route %s.%s' % (rnsn, mname), inputs))
                 for fn, code in codes.items():
                     for m in re.finditer(r'\b([A-Z]\w*)\.([a-z]\w*)\b', code):
                         nsn = [x for x in namespaces if pascal(x) == m.group(1)]
@@ -263,6 +281,21 @@ def check_model(inv, specs, trace, oc, out_v, label=None):
                         if not re.search(r'\bstatic\s+let\s+%s\b' % re.escape(m.group(2)), home):
                             out_v.append(viol('swift-client-undeclared-route', '%s uses %s.%s, which the swift_types output for the same spec does not declare'
                                               % (fn, m.group(1), m.group(2)), inputs))
+        elif backend == 'obj_c_client':
+            # one request method per route whose auth type the client was asked for (-w user), none for the others
+            for nsn, r in routes:
+                mname = route_method(r)
+                if mname is None or not isinstance(route_auth(r), str):
+                    continue
+                wanted = 'user' in [x.strip() for x in route_auth(r).split(',')]
+                hdr = codes.get('Routes/DB%sUserAuthRoutes.h' % nsn.upper(), '')
+                impl_ = codes.get('Routes/DB%sUserAuthRoutes.m' % nsn.upper(), '')
+                nh = len(re.findall(r'\)\s*%s\b' % re.escape(mname), hdr))
+                nm = len(re.findall(r'\)\s*%s\b' % re.escape(mname), impl_))
+                if wanted and (nh == 0 or nm == 0):
+                    out_v.append(viol('objc-client-route-missing', 'obj_c_client -w user declares route %s.%s %d times in the header and %d times in the implementation' % (nsn, mname, nh, nm), inputs))
+                elif not wanted and (nh or nm):
+                    out_v.append(viol('objc-client-foreign-auth-route', 'obj_c_client -w user emits route %s.%s although its auth is %r' % (nsn, mname, route_auth(r)), inputs))
         elif backend == 'obj_c_types':
             user_classes = {'DB%s%s' % (nsn.upper(), d.name) for nsn, d in types}
             for fn, code in codes.items():
@@ -311,7 +344,7 @@ def check_model(inv, specs, trace, oc, out_v, label=None):
     return n
 
 
-LEAVES = ['Int32', 'String', 'Bytes', 'Timestamp("%Y")', 'Float64', 'Boolean', 'UInt64', 'Plain', 'Tree', 'Uni', 'Alp', 'other.Fo']
+LEAVES = ['Int32', 'String', 'String(pattern="[^\\"]+x")', 'Bytes', 'Timestamp("%Y")', 'Float64', 'Boolean', 'UInt64', 'Plain', 'Tree', 'Uni', 'Alp', 'other.Fo']
 WRAPS1 = ['%s', '%s?', 'List(%s)', 'List(%s?)', 'Map(String, %s)', 'List(%s)?']
 WRAPS2 = ['List(List(%s))', 'List(Map(String, %s))', 'Map(String, List(%s))', 'Map(String, Map(String, %s))', 'List(List(%s)?)', 'List(List(%s?))', 'Map(String, List(%s)?)']
 WRAPS3 = ['List(List(List(%s)))', 'List(Map(String, List(%s)))', 'Map(String, List(List(%s)))', 'Map(String, Map(String, List(%s)))', 'List(List(Map(String, %s)))']
@@ -362,9 +395,16 @@ def shape_specs():
             ('routes-only:imported-tree', 'route gett(sh.Tree, sh.Tree, sh.Tree)\n    attrs\n        style = "download"\n', [Rt('gett')]),
             ('routes-only:alias-of-union', 'alias Ul = sh.Uni\n\nroute geta(Ul, Ul, Void)\n', [Rt('geta')]),
             ('aliases-only', 'alias Pl = sh.Plain\n\nalias Ls = List(sh.Uni)\n', []),
+            ('same-route-name-other-auth', 'route getinfo(sh.Plain, Void, Void)\n    attrs\n        auth = "team"\n\nroute onlyteam:2(Void, sh.Plain, Void)\n    attrs\n        auth = "team"\n\nroute both(Void, Void, Void)\n    attrs\n        auth = "team, user"\n',
+             [Rt('getinfo', 1, (('auth', 'team'),)), Rt('onlyteam', 2, (('auth', 'team'),)), Rt('both', 1, (('auth', 'team, user'),))]),
             ('empty-ns', '', [])):
-        out.append(('namespace:' + lab, [base_other, ('sh.stone', common), ('ro.stone', 'namespace ro\n\nimport sh\n\n' + body), ('cfg.stone', c12.CFG)],
-                    (nss + ['ro'], base_types, [('ro', r) for r in routes])))
+        sh_text, sh_routes = common, []
+        if lab == 'same-route-name-other-auth':
+            # the namespace `sh` has routes of the same names whose auth is the client's (the default "user")
+            sh_text = common + 'route getinfo(Plain, Void, Void)\n\nroute onlyteam:2(Void, Uni, Void)\n'
+            sh_routes = [('sh', Rt('getinfo')), ('sh', Rt('onlyteam', 2))]
+        out.append(('namespace:' + lab, [base_other, ('sh.stone', sh_text), ('ro.stone', 'namespace ro\n\nimport sh\n\n' + body), ('cfg.stone', c12.CFG)],
+                    (nss + ['ro'], base_types, [('ro', r) for r in routes] + sh_routes)))
     return out
 
 
